@@ -37,11 +37,16 @@ def main():
             # a shell demo written against the seeding agent's own worktree: run a copy that points at ours
             src = open(os.path.join(seeddir, pattern)).read()
             src = re.sub(r'/tmp/seed-C\d+', wt, src)
+            src = src.replace('$(dirname "$0")', seeddir).replace('$(cd "$(dirname "$0")" && pwd)', seeddir)
             tmpsh = f'{wt}/.seed-demo.sh'
             open(tmpsh, 'w').write(src)
             demo_cmd = f'sh {tmpsh}'
             def run_demo():
-                return sh(demo_cmd, cwd=wt, timeout=900)
+                rc, out = sh(demo_cmd, cwd=wt, timeout=900)
+                # scripts that only print a verdict: a FAIL / BROKEN / DIFFERENT line is a failure too
+                if rc == 0 and re.search(r'^(FAIL|BROKEN|DIFFERENT)', out, re.M):
+                    rc = 1
+                return rc, out
             meta['demo_cmd'] = f'sh {pattern}   (worktree path substituted; passes iff exit 0)'
         elif target == 'shbin':
             # a shell demo that takes the CLI binary as its argument
@@ -54,6 +59,8 @@ def main():
             demo_cmd = f'go build -o {wt}/.seedcli . && {wt}/.seedcli {os.path.join(seeddir, script)}'
             def run_demo():
                 rc, out = sh(demo_cmd, cwd=wt, timeout=600)
+                if expect.startswith('!'):
+                    return (0 if expect[1:] not in out and 'panic' not in out else 1), out
                 return (0 if (rc == 0 and expect in out) else 1), out
             meta['demo_cmd'] = f'go build -o cli . && cli {script}   (passes iff exit 0 and the output contains "{expect}")'
         else:
